@@ -222,6 +222,7 @@ func main() {
 			}()
 			run(c)
 			c.MustPassAccount()
+			rules.Contradictions(c)
 			if *tier == "thorough" {
 				rules.Sweep(c)
 			}
